@@ -210,6 +210,18 @@ Section Resolve.
     - apply IH.
   Qed.
 
+  (* the same loop appending the searched node instead of the (equal) element of the configured list *)
+  Lemma after_inner_k : forall (k : N) l acc,
+    for_range (R := res unit * (list (N * (SCP * SINFO)) * list N * list N))
+      (fun key acc => if N.eqb key k then let acc := acc ++ [k] in CBreak acc else CNext acc) l acc
+    = inl (if memN k l then acc ++ [k] else acc).
+  Proof.
+    intros k l; induction l as [|a l IH]; intros acc; simpl; auto.
+    rewrite (N.eqb_sym k a). destruct (N.eqb a k) eqn:E; simpl.
+    - reflexivity.
+    - apply IH.
+  Qed.
+
   Lemma first_fail_cons : forall (t : N * tex) rs,
     first_fail (t :: rs) = match snd t with TFail e => Some e | _ => first_fail rs end.
   Proof. intros [k x] rs; unfold first_fail; simpl; destruct x; reflexivity. Qed.
@@ -233,7 +245,7 @@ Ltac gen_resolve_loop IH :=
   intros [k x]; intros;
   rewrite first_fail_cons; cbn [for_range snd fst ok_prefix];
   destruct x; cbn [task_err snd fst err_non_nil is_sub_graph_interrupt errors_is_rerun wrap_graph_node_error]; unfold map_put;
-  [ rewrite after_inner; cbn [fst snd]; rewrite IH;
+  [ first [ rewrite after_inner | rewrite after_inner_k ]; cbn [fst snd]; rewrite IH;
     destruct (first_fail _); rewrite afters_cons, subpairs_cons, reruns_cons; cbn [snd fst];
     destruct (memN _ _); rewrite <- ?app_assoc; reflexivity
   | rewrite IH; destruct (first_fail _); rewrite afters_cons, subpairs_cons, reruns_cons; cbn [snd fst];
